@@ -941,7 +941,19 @@ class Sym:
                 dty = t['discr']['place']['ty'] if t['discr']['k'] in ('copy', 'move') else t['discr'].get('ty')
                 vals = [v for v, _ in t['arms']]
                 known = term_int(d)
+                excluded = set()
+                if known is None:
+                    # the same value was already tested on this path (two matches on one discriminant): stay consistent
+                    for c0 in p.conds:
+                        if c0[0] == d:
+                            if isinstance(c0[1], int):
+                                known = c0[1]
+                            elif isinstance(c0[1], tuple) and c0[1] and c0[1][0] == 'not':
+                                excluded |= set(c0[1][1])
+                prior = known is not None and term_int(d) is None
                 for v, tb in t['arms']:
+                    if v in excluded:
+                        continue
                     if known is not None and known != v:
                         continue
                     q = p.clone()
@@ -1065,6 +1077,8 @@ def term_int(t):
         return t[1]
     if t[0] == 'cast':
         return term_int(t[1])
+    if t[0] == 'call' and isinstance(t[1], str) and t[1].split('::')[-1] == 'from' and 'From<bool>' in t[1] and len(t[2]) == 1:
+        return term_int(t[2][0])      # usize::from(true) == 1
     if t[0] == 'bin':
         a, b = term_int(t[2]), term_int(t[3])
         if a is None or b is None:
